@@ -430,7 +430,7 @@ def o6(h, st):
 # ---------------------------------------------------------------------------------------------------------------------
 # P1  the term loops of the frequency routes for an operator with ANY number of terms (loop cut; simulate and the one-term estimators replaced by their contracts)
 
-from tverif.engine import stub
+from tverif.engine import stub, StandIn
 from tverif.interp import GhostIterable, GSeq
 from tverif.ring import Poly
 
@@ -544,11 +544,11 @@ def p1(h, st):
     proto.est_value = E
     proto.acc0 = h.real("acc")
 
-    class _Terms:
+    class _Terms(StandIn):
         def items(self_):
             return proto
 
-    class _Op:
+    class _Op(StandIn):
         terms = _Terms()
 
         def __repr__(self_):
